@@ -46,16 +46,27 @@ func c08Child(args []string) int {
 			}
 			config.Server.Permissions.Users[c.UserName] = ur
 		}
+		if c.UserEmpty {
+			config.Server.Permissions.Users[c.UserName] = []string{}
+		}
+		if len(c.Decoy) > 0 {
+			var dr []string
+			for _, r := range c.Decoy {
+				dr = append(dr, c08Subst(r, root))
+			}
+			config.Server.Permissions.Users["someoneelse"] = dr
+		}
 		os.Chdir(root)
 		res := c08Result{Root: root}
-		u, err := user.New(c.UserName, "127.0.0.1:5555")
-		if err != nil {
-			return res
-		}
+		// user.New refuses a user without any rule: no session, nothing is served
+		u, uerr := user.New(c.UserName, "127.0.0.1:5555")
+		res.NoUser = uerr != nil
 		for _, rq := range c.Requests {
 			p := c08Subst(rq, root)
 			a := c08Answer{Request: p}
-			a.Got = u.HasFilePermission(p, "readfiles")
+			if u != nil {
+				a.Got = u.HasFilePermission(p, "readfiles")
+			}
 			resolved, err := filepath.EvalSymlinks(p)
 			if err == nil {
 				resolved, err = filepath.Abs(resolved)
